@@ -3,6 +3,9 @@
 #pragma once
 
 #include "objgen_stream.h"
+#include "objgen_core.h"
+#include "objgen_media.h"
+#include "objgen_pubsub.h"
 
 namespace og {
 inline void registerAll()
@@ -12,5 +15,8 @@ inline void registerAll()
         return;
     done = true;
     registerStreamNonzas();
+    registerCore();
+    registerMedia();
+    registerPubSub();
 }
 }   // namespace og
